@@ -40,7 +40,7 @@ TRUSTED = [
     "scipy interp1d linear with fill_value='extrapolate' (segment by searchsorted-left clipped to 1..n-1, knots sorted stably by x); "
     "kind='zero' evaluated at its own knots returns the knot values",
     "binary64 arithmetic of the codec and float32 storage of the parameters: the model is exact; encoder outputs are compared "
-    "within 2^-18, decoder outputs (float32 group means and rescaling, binary64 accumulation) within 2^-20 (2^-17 for standardized)",
+    "within 2^-18, decoder outputs (float32 group means and rescaling, binary64 accumulation) within 2^-20 (for standardized: times the cancellation factor of z*std + mean)",
     "log2 / 2**x in binary32/64: the model works with the articulation RATIO and with 2^column for the two logarithmic "
     "normalisations (the harness exponentiates the stored columns); the log/exp identities are theorems over the reals (Props/C18Real)",
     "np.std (a square root) enters the model as a parameter; first_order_derivative / tempo_by_derivative enter as the parameter bp "
@@ -48,11 +48,13 @@ TRUSTED = [
     "note_array() / compute_note_array() (property C05) provide the score table; PerformedPart.note_array() the performance table",
 ]
 PARTIAL = [
-    "duration_roundtrip_partial: performed durations below 0.075 s are replaced by 0.075 s in to_matched_score (open finding F-C18-4)",
+    "duration_roundtrip_partial / matched_row_duration_partial: performed durations below 0.075 s are replaced by 0.075 s in "
+    "to_matched_score (open finding F-C18-4)",
     "articulation_grace_partial: the performed duration of grace notes (score duration 0) decodes to 0 (open finding F-C18-2)",
-    "timing_roundtrip is stated for the encoder's onset groups; that the decoder (grouping raw onsets with eps=1e-6) finds the same "
-    "groups as the encoder (grouping int(1e4*onset)) is proved for onsets that are equal or at least 2e-4 beat apart (grouping_agrees) "
-    "and compared on every case",
+    "timing_roundtrip takes the beat periods as a parameter (any positive sequence, one per onset group): that tempo_by_average / "
+    "tempo_by_derivative return positive finite values is checked on every case, not proved (monotonize_times, central differences)",
+    "decode_performance's bookkeeping (rows in snote_ids order, stable re-sort by (onset_div, pitch), ids zipped) and the scatter of "
+    "group results to note order are modelled and compared; the theorems are about encode / decodeTime / toMatchedScore / timeKnots",
     "float rounding is outside the theorems (exact rationals / reals); it is bounded by the oracle's tolerance on every case",
 ]
 RULE = ("seeded random single-part scores (1-3 voices, chords, ties, grace notes, optional pickup, divisions 1..24 and rare large "
@@ -212,8 +214,8 @@ def gen_scale(rng):
 def cases(rng, tier):
     for v in range(1, 128):
         yield {"k": "vel", "v": v}
-    n_codec = {"quick": 70, "thorough": 1500, "search": 2500}[tier]
-    n_tab = {"quick": 60, "thorough": 1500, "search": 1500}[tier]
+    n_codec = {"quick": 120, "thorough": 3000, "search": 3000}[tier]
+    n_tab = {"quick": 80, "thorough": 1500, "search": 1500}[tier]
     for i in range(n_codec):
         sub = random.Random(rng.getrandbits(48))
         yield gen_codec(sub, tier, big=(i % 25 == 7))
@@ -438,8 +440,17 @@ def eval_codec_combo(ev, part, pp, al, ms, sids, norm, method, info):
     dec = r
     out = [[str(n["id"]), float(n["note_on"]), float(n["note_off"] - n["note_on"]), int(n["velocity"])] for n in dec.notes]
     out = [[a, (None if not math.isfinite(b) else b), (None if not math.isfinite(c) else c), d] for a, b, c, d in out]
-    # the group means of the float32 columns and the rescaling are evaluated in float32
-    ev.impl.append(("@approx", out, {"beat_period_standardized": 2.0 ** -17}.get(norm, T32)))
+    # the group means of the float32 columns and the rescaling are evaluated in float32; z*std + mean cancels, so for
+    # `standardized` the float32 roundings are weighed with the size of the cancelling terms
+    rtol = T32
+    if norm == "beat_period_standardized" and len(params):
+        zs = np.abs(params["beat_period_standardized"].astype(float) * params["beat_period_std"].astype(float))
+        mu = float(params["beat_period_mean"][0])
+        b = np.abs(params["beat_period"].astype(float))
+        amp = float(np.max((3 * zs + 2 * mu + b) / np.maximum(b, 1e-300)))
+        span = float(so.max() - so.min()) + float(sd.max()) + 1.0
+        rtol = T32 * max(8.0, amp, span * (3 * float(zs.max()) + 2 * mu))
+    ev.impl.append(("@approx", out, rtol))
 
     # ---- oracle: decode(encode(x)) = x for every matched note
     exp = expected_pairs(sna, pna, al)
